@@ -236,10 +236,14 @@ pub fn check_summaries(kind: Kind, img: &[u8], w: &Walked) -> Result<(), String>
                     min(13)?;
                     let m = get(e, 10, 2);
                     let mo = get(e, 8, 2) as usize;
-                    let nul = e[12..].iter().position(|b| *b == 0).map(|p| 12 + p);
-                    match nul {
-                        Some(p) => eq("RIMT platform mapping offset vs name NUL", off + 8, mo as u64, (p + 1) as u64)?,
-                        None => return Err(format!("RIMT platform node at {}: name not NUL-terminated", off)),
+                    // the name field [12, mapping offset) must end with its NUL terminator (a name that
+                    // itself ends in NUL bytes simply pads the field)
+                    if mo < 13 || mo > len || e[mo - 1] != 0 {
+                        return Err(format!("RIMT platform node at {}: mapping offset {} is not preceded by the name's NUL terminator", off, mo));
+                    }
+                    let first_nul = e[12..mo].iter().position(|b| *b == 0).map(|p| 12 + p).unwrap_or(mo - 1);
+                    if e[first_nul..mo].iter().any(|b| *b != 0) && e[12..mo - 1].iter().filter(|b| **b == 0).count() == 0 {
+                        return Err(format!("RIMT platform node at {}: bytes after the name terminator are not zero", off));
                     }
                     eq("RIMT platform length vs mapping count", off + 2, len as u64, (mo as u64) + 20 * m)?;
                 }
